@@ -133,6 +133,11 @@ func (t *Tree[E]) playGame(a, b int) (loser, winner int) {
 	if t.nodes[a].value < t.nodes[b].value {
 		return b, a
 	}
+	// A sequence that ended carries maxVal; it must lose the tie against a
+	// sequence whose current item is a real value equal to maxVal.
+	if t.nodes[a].value == t.nodes[b].value && t.nodes[b].index == -1 && t.nodes[a].index != -1 {
+		return b, a
+	}
 	return a, b
 }
 
